@@ -368,3 +368,290 @@ Proof.
       repeat match goal with |- context [if ?b then _ else _] => match type of b with bool => destruct b end end; cbn [fst snd];
       first [exact (Hack PNone) | destruct id; reflexivity].
 Qed.
+
+(* ------------------------------------------------------------------ *)
+(* C05_order                                                          *)
+(* ------------------------------------------------------------------ *)
+(* the invocation the specification expects for one event *)
+Definition spec_calls (c : cfg) (s : srv) (eio : str) (pn : option str) (data : pv) : list (N * list pv) :=
+  let ns := ns_or_default pn in
+  match split_event data with
+  | Err _ => []
+  | Ok (ev, args) =>
+      let osid := sid_from_eio (mg s) eio ns in
+      match (if is_connected (mg s) osid ns then osid else None) with
+      | None => []
+      | Some sid =>
+          match responsible c ev ns (PStr sid :: args) with
+          | Some (Some h, a) => if arity_ok c h (List.length a) then [(h, a)] else []
+          | _ => []
+          end
+      end
+  end.
+Definition in_domain (data : pv) : bool :=
+  match split_event data with
+  | Ok (ev, _) => negb (reserved ev || is_unhashable ev)
+  | Err _ => true
+  end.
+
+Lemma he_pure_calls c eio pn id data s :
+  in_domain data = true ->
+  calls_of (fst (he_pure c eio pn id data s)) = spec_calls c s eio pn data.
+Proof.
+  unfold in_domain, he_pure, spec_calls.
+  destruct (split_event data) as [[ev args]|x]; [|reflexivity].
+  intro Hd. apply negb_true_iff, orb_false_iff in Hd as [Hres Hunh]. cbn [fst snd].
+  set (ns := ns_or_default pn).
+  destruct (is_connected (mg s) (sid_from_eio (mg s) eio ns) ns); [|reflexivity]. cbn [negb].
+  destruct (sid_from_eio (mg s) eio ns) as [sid|]; [|reflexivity].
+  rewrite te_pure_responsible by assumption.
+  destruct (responsible c ev ns (PStr sid :: args)) as [[[h|] a]|]; [| |reflexivity].
+  - rewrite cwr_pure_plain by (apply reserved_not_disconnect; assumption).
+    unfold ch_pure, arity_ok, arity_bad, some_res.
+    destruct (aget N.eqb (behav c) h) as [b|]; [|reflexivity].
+    destruct (h_arity b) as [k|].
+    + destruct (Nat.eqb k (List.length a)); cbn [negb fst snd]; [|reflexivity].
+      destruct (outcome_res (h_outcome b)) as [v|x]; cbn [fst]; [|reflexivity].
+      rewrite calls_of_app, ack_effs_calls. reflexivity.
+    + cbn [fst snd]. destruct (outcome_res (h_outcome b)) as [v|x]; cbn [fst]; [|reflexivity].
+      rewrite calls_of_app, ack_effs_calls. reflexivity.
+  - unfold unhandled_method.
+    destruct ev; try discriminate Hunh; cbn [truthy fst snd];
+      repeat match goal with |- context [if ?b then _ else _] =>
+                               match type of b with bool => destruct b end end; cbn [fst snd app];
+      try reflexivity; apply ack_effs_calls.
+Qed.
+
+(* messages that carry no complete packet: a binary header, or a non-final attachment *)
+Definition quiet_msg (c : cfg) (s : srv) (eio : str) (payload : pv) (tbl : jtable) : bool :=
+  match aget str_eqb (binpkt s) eio with
+  | Some r => match add_attachment r payload with Ok (_, false) => true | _ => false end
+  | None => match decode (table_loads tbl) payload with
+            | Ok r => uses_binary c && (type_is (rp r) BINARY_EVENT || type_is (rp r) BINARY_ACK)
+            | Err _ => false end
+  end.
+
+Lemma step_quiet c s eio payload tbl :
+  quiet_msg c s eio payload tbl = true ->
+  snd (step c s (EioMessage eio payload tbl)) = [] /\
+  mg (fst (step c s (EioMessage eio payload tbl))) = mg s.
+Proof.
+  intro Hq. unfold step, step_m. rewrite bindM_getS.
+  destruct (existsb (str_eqb eio) (live s)); [|split; reflexivity].
+  unfold contain, handle_eio_message. rewrite bindM_getS. unfold quiet_msg in Hq.
+  destruct (aget str_eqb (binpkt s) eio) as [r|].
+  - destruct (add_attachment r payload) as [[r' [|]]|x]; try discriminate. split; reflexivity.
+  - destruct (decode (table_loads tbl) payload) as [r|x]; [|discriminate].
+    destruct (uses_binary c); [|discriminate]. cbn [andb] in Hq.
+    rewrite bindM_lift_ok.
+    assert (H4 : type_is (rp r) CONNECT = false /\ type_is (rp r) DISCONNECT = false /\
+                 type_is (rp r) EVENT = false /\ type_is (rp r) ACK = false).
+    { apply orb_true_iff in Hq as [Ht|Ht];
+        repeat split; apply (type_is_excl _ _ _ Ht); reflexivity. }
+    destruct H4 as (H0 & H1 & H2 & H3). rewrite H0, H1, H2, H3, Hq. split; reflexivity.
+Qed.
+
+(* a stream of events (text, or binary with their attachments) from any number of transports *)
+Definition event_or_quiet (c : cfg) (s : srv) (o : op) : bool :=
+  match o with
+  | EioMessage eio payload tbl =>
+      is_live s eio &&
+      match event_of c s eio payload tbl with
+      | Some (_, _, data) => in_domain data
+      | None => quiet_msg c s eio payload tbl
+      end
+  | _ => false
+  end.
+Fixpoint event_stream (c : cfg) (s : srv) (ops : list op) : bool :=
+  match ops with
+  | [] => true
+  | o :: r => event_or_quiet c s o && event_stream c (fst (step c s o)) r
+  end.
+Definition expected_call (c : cfg) (s : srv) (o : op) : list (N * list pv) :=
+  match o with
+  | EioMessage eio payload tbl =>
+      match event_of c s eio payload tbl with
+      | Some (pn, _, data) => spec_calls c s eio pn data
+      | None => []
+      end
+  | _ => []
+  end.
+Fixpoint expected_calls (c : cfg) (s : srv) (ops : list op) : list (N * list pv) :=
+  match ops with
+  | [] => []
+  | o :: r => expected_call c s o ++ expected_calls c (fst (step c s o)) r
+  end.
+
+Lemma step_event_or_quiet c s o :
+  has_actions c = false -> event_or_quiet c s o = true ->
+  calls_of (snd (step c s o)) = expected_call c s o /\ mg (fst (step c s o)) = mg s /\
+  (List.length (calls_of (snd (step c s o))) <= 1)%nat.
+Proof.
+  intros Hna H. destruct o as [|eio payload tbl| | | | | | | | | |]; try discriminate.
+  cbn [event_or_quiet expected_call] in *. apply andb_true_iff in H as [Hl H].
+  destruct (event_of c s eio payload tbl) as [[[pn id] data]|] eqn:He.
+  - destruct (step_event_effs c s eio payload tbl pn id data Hna Hl He) as [Heff Hm].
+    rewrite Heff, he_pure_calls by assumption. split; [reflexivity|]. split; [exact Hm|].
+    unfold spec_calls. destruct (split_event data) as [[ev args]|]; [|cbn; lia].
+    destruct (if is_connected _ _ _ then _ else None); [|cbn; lia].
+    destruct (responsible c ev _ _) as [[[h|] a]|]; try (cbn; lia).
+    destruct (arity_ok c h _); cbn; lia.
+  - destruct (step_quiet c s eio payload tbl H) as [Heff Hm]. rewrite Heff.
+    split; [reflexivity|]. split; [exact Hm|]. cbn; lia.
+Qed.
+
+Lemma run_cons c s o r :
+  run c s (o :: r) = (fst (run c (fst (step c s o)) r), snd (step c s o) :: snd (run c (fst (step c s o)) r)).
+Proof.
+  cbn [run]. destruct (step c s o) as [s1 e]. cbn [fst snd].
+  destruct (run c s1 r) as [s2 es]. reflexivity.
+Qed.
+
+Theorem order_of_calls c :
+  has_actions c = false ->
+  forall ops s, event_stream c s ops = true ->
+    calls_of (List.concat (snd (run c s ops))) = expected_calls c s ops /\
+    mg (fst (run c s ops)) = mg s.
+Proof.
+  intro Hna. induction ops as [|o r IH]; intros s Hs; [split; reflexivity|].
+  cbn [event_stream] in Hs. apply andb_true_iff in Hs as [Ho Hr].
+  rewrite run_cons. cbn [fst snd List.concat expected_calls].
+  destruct (step_event_or_quiet c s o Hna Ho) as (Hc & Hm & _).
+  destruct (IH _ Hr) as [IH1 IH2].
+  rewrite calls_of_app, Hc, IH1, IH2. split; [reflexivity|exact Hm].
+Qed.
+
+(* ------------------------------------------------------------------ *)
+(* summary statements                                                 *)
+(* ------------------------------------------------------------------ *)
+Theorem event_cases c eio pn id data s :
+  has_actions c = false ->
+  let ns := ns_or_default pn in
+  let run := handle_event c eio pn id data s in
+  (* data[0] / data[1:] fail: raised before anything else happens *)
+  (forall x, split_event data = Err x -> run = (s, [], Err x)) /\
+  (forall ev args, split_event data = Ok (ev, args) ->
+     (* transport not connected to the namespace (or its disconnect is in progress) *)
+     (is_connected (mg s) (sid_from_eio (mg s) eio ns) ns = false -> run = (s, [], Ok tt)) /\
+     (forall sid, sid_from_eio (mg s) eio ns = Some sid -> is_connected (mg s) (Some sid) ns = true ->
+        is_unhashable ev = false ->
+        (* nobody responsible: dropped, not acknowledged *)
+        (responsible c ev ns (PStr sid :: args) = None -> run = (s, [], Ok tt)) /\
+        (* a handler is responsible, fits and returns v *)
+        (forall h a b v,
+            responsible c ev ns (PStr sid :: args) = Some (Some h, a) -> is_disconnect ev = false ->
+            aget N.eqb (behav c) h = Some b -> arity_bad b (List.length a) = false ->
+            h_outcome b = Returns v ->
+            run = (s, Call h a :: ack_effs c s eio ns id v, ack_res c ns id v)) /\
+        (* class-based namespace without the method: no Call, empty ACK *)
+        (forall e a, ev = PStr e -> responsible c ev ns (PStr sid :: args) = Some (None, a) ->
+            run = (s, ack_effs c s eio ns id PNone, ack_res c ns id PNone)))) /\
+  (* in every case: state unchanged, nothing addressed to another transport *)
+  fst (fst run) = s /\ forallb (str_eqb eio) (out_eios (snd (fst run))) = true.
+Proof.
+  intros Hna ns run. subst run. split; [|split].
+  - intros x Hx. apply handle_event_malformed; assumption.
+  - intros ev args Hs. split.
+    + intro Hc. eapply handle_event_not_connected; eassumption.
+    + intros sid Hsid Hc Hunh. split; [|split].
+      * intro Hr. eapply event_unhandled; eassumption.
+      * intros h a b v Hr Hd Hb Har Ho. eapply event_handled; eassumption.
+      * intros e a -> Hr. eapply event_ns_no_method; eassumption.
+  - apply event_state_unchanged; assumption.
+Qed.
+
+(* the acknowledgement, spelled out *)
+Lemma ack_effs_spelled c s eio ns v :
+  ack_effs c s eio ns None v = [] /\
+  (forall i fr, frames_of c ACK (PList (pack v)) ns (Some i) = Ok fr ->
+     ack_effs c s eio ns (Some i) v = (if is_live s eio then map (Out eio) fr else []) /\
+     ack_res c ns (Some i) v = Ok tt).
+Proof.
+  split; [reflexivity|]. intros i fr H. unfold ack_effs, ack_res, sp_effs, sp_res. rewrite H. split; reflexivity.
+Qed.
+
+(* the checker applied to the implementation accepts every run of the model *)
+Theorem model_passes_c05_all c :
+  has_actions c = false -> forall ops s, all_steps (c05_step c) c s ops (snd (run c s ops)) = true.
+Proof.
+  intro Hna. induction ops as [|o r IH]; intro s; [reflexivity|].
+  rewrite run_cons. cbn [snd all_steps]. rewrite model_passes_c05_step by assumption. apply IH.
+Qed.
+
+(* ------------------------------------------------------------------ *)
+(* Examples (non-vacuity): function handler, catch-all, class-based    *)
+(* namespace, on a reachable state with two transports                 *)
+(* ------------------------------------------------------------------ *)
+Module EvEx.
+  Import Ex.
+  Open Scope string_scope.
+  Definition msg5 := PList [PStr (s2l "msg"); PInt 5].
+  Definition other := PList [PStr (s2l "other"); PInt 1].
+  Definition text (f : string) (js : string) (v : pv) := (PStr (s2l f), [(s2l js, Ok v)]).
+
+  (* the reachable state is what the comments say *)
+  Example state_ok :
+    sid_from_eio (mg s0) e1 slash = Some (sid_name 0) /\ sid_from_eio (mg s0) e1 chat = Some (sid_name 2) /\
+    sid_from_eio (mg s0) e2 slash = Some (sid_name 1) /\ sid_from_eio (mg s0) e2 plain = Some (sid_name 3) /\
+    sid_from_eio (mg s0) e2 chat = None /\ has_actions c = false /\ is_live s0 e1 = true.
+  Proof. vm_compute. repeat split. Qed.
+
+  (* event_handled: function handler, tuple with bytes => binary ACK with id 1 to e1 only *)
+  Example event_handled_ex :
+    responsible c (PStr (s2l "msg")) slash [S 0; PInt 5] = Some (Some 3, [S 0; PInt 5]) /\
+    handle_event c e1 None (Some 1%Z) msg5 s0 =
+    (s0, [Call 3 [S 0; PInt 5];
+          Out e1 (PStr (s2l "61-1[1,{""_placeholder"":true,""num"":0}]")); Out e1 (PBytes [1; 2])], Ok tt) /\
+    handle_event c e1 None None msg5 s0 = (s0, [Call 3 [S 0; PInt 5]], Ok tt).
+  Proof. vm_compute. repeat split. Qed.
+
+  (* catch-all handler of "/": receives the event name first *)
+  Example event_catch_all_ex :
+    responsible c (PStr (s2l "other")) slash [S 1; PInt 1] = Some (Some 4, [PStr (s2l "other"); S 1; PInt 1]) /\
+    handle_event c e2 None (Some 0%Z) other s0 =
+    (s0, [Call 4 [PStr (s2l "other"); S 1; PInt 1]; Out e2 (PStr (s2l "30[""any""]"))], Ok tt).
+  Proof. vm_compute. repeat split. Qed.
+
+  (* class-based namespace: method present / absent *)
+  Example event_ns_ex :
+    handle_event c e1 (Some chat) (Some 4%Z) (PList [PStr (s2l "hello")]) s0 =
+    (s0, [Call 7 [S 2]; Out e1 (PStr (s2l "3/chat,4[[7]]"))], Ok tt) /\
+    responsible c (PStr (s2l "nomethod")) chat [S 2] = Some (None, [S 2]) /\
+    handle_event c e1 (Some chat) (Some 4%Z) (PList [PStr (s2l "nomethod")]) s0 =
+    (s0, [Out e1 (PStr (s2l "3/chat,4[]"))], Ok tt).
+  Proof. vm_compute. repeat split. Qed.
+
+  (* nobody responsible ("/plain" has no handler at all), not connected, malformed *)
+  Example event_unhandled_ex :
+    responsible c (PStr (s2l "msg")) plain [S 3; PInt 5] = None /\
+    handle_event c e2 (Some plain) (Some 1%Z) msg5 s0 = (s0, [], Ok tt) /\
+    handle_event c e2 (Some chat) (Some 1%Z) msg5 s0 = (s0, [], Ok tt) /\
+    handle_event c e1 None (Some 1%Z) (PList []) s0 = (s0, [], Err IndexError) /\
+    handle_event c e1 None (Some 1%Z) (PInt 3) s0 = (s0, [], Err TypeError).
+  Proof. vm_compute. repeat split. Qed.
+
+  Definition m_msg := EioMessage e1 (PStr (s2l "21[""msg"",5]")) [(s2l "[""msg"",5]", Ok msg5)].
+  Definition m_other := EioMessage e2 (PStr (s2l "2[""other"",1]")) [(s2l "[""other"",1]", Ok other)].
+  Definition m_bin_head :=
+    EioMessage e1 (PStr (s2l "51-/chat,9[""blob"",{""_placeholder"":true,""num"":0}]"))
+               [(s2l "[""blob"",{""_placeholder"":true,""num"":0}]",
+                 Ok (PList [PStr (s2l "blob"); PDict [(k_placeholder, PBool true); (k_num, PInt 0)]]))].
+  Definition m_bin_att := EioMessage e1 (PBytes [9%N]) [].
+
+  (* the checker is not vacuous on this step: it sees an event, a call and an ACK *)
+  Example model_passes_c05_step_ex :
+    event_of c s0 e1 (PStr (s2l "21[""msg"",5]")) [(s2l "[""msg"",5]", Ok msg5)] = Some (None, Some 1%Z, msg5) /\
+    c05_step c s0 m_msg (snd (step c s0 m_msg)) = true /\
+    c05_step c s0 m_msg [Call 3 [S 0; PInt 5]] = false /\
+    c05_step c s0 m_msg (snd (step c s0 m_msg) ++ [Out e2 (PStr (s2l "31[]"))]) = false.
+  Proof. vm_compute. repeat split. Qed.
+
+  (* order: two transports, a text event each and a binary event in two messages *)
+  Example order_of_calls_ex :
+    let ops := [m_msg; m_bin_head; m_other; m_bin_att; m_msg] in
+    event_stream c s0 ops = true /\
+    expected_calls c s0 ops =
+      [(3%N, [S 0; PInt 5]); (4%N, [PStr (s2l "other"); S 1; PInt 1]); (8%N, [S 2; PBytes [9%N]]); (3%N, [S 0; PInt 5])] /\
+    calls_of (List.concat (snd (run c s0 ops))) = expected_calls c s0 ops.
+  Proof. vm_compute. repeat split. Qed.
+End EvEx.
